@@ -256,6 +256,22 @@ def run(spec, ctx):
     if spec["kind"] == "shared-compiled":
         # queries obtained from ONE compiled filter path (whose filters read `$` and `_`), read a few matches at a time
         # while the same compiled path is evaluated over another document and context in between
+        # the views of queries over documents whose member keys are equal-but-different Python objects (1 / 1.0 / True,
+        # 0 / 0.0 / False, "1"), one after the other in several orders: each view must describe ITS query's matches
+        kdocs = [["x", "y", "z"], {1.0: "f1", 0.0: "f0"}, {True: "bt", False: "bf"}, {1: "i1", 0: "i0"}, {"1": "s1", "0": "s0"}, {"a": ["p", "q"]}, {"a": {1.0: "n"}}, {"a": {True: "m"}}]
+        for order in (list(range(len(kdocs))), list(reversed(range(len(kdocs)))), [1, 0, 3, 2, 4, 6, 5, 7]):
+            for i in order:
+                for text in ("$.*", "$..*"):
+                    ctx.evaluation()
+                    o = impl.call(lambda: (list(jsonpath.finditer(text, kdocs[i])), list(jsonpath.query(text, kdocs[i]).skip(0).pointers()), list(jsonpath.query(text, kdocs[i]).locations()), list(jsonpath.query(text, kdocs[i]).items())))
+                    if not o.ok:
+                        continue   # keys that are not strings are outside JSON; only what is answered is judged
+                    ms, ptrs, locs, items = o.value
+                    bad = len(ptrs) != len(ms) or any(str(a) != str(m.pointer()) or a != m.pointer() for a, m in zip(ptrs, ms)) or locs != [m.path for m in ms] or [p_ for p_, _v in items] != [m.path for m in ms]
+                    ctx.count("views_over_equal_but_different_keys")
+                    if bad:
+                        ctx.violation("view-lists-another-query's-matches", {"kind": "key-twins"}, {"document": repr(kdocs[i]), "query": text, "pointers": [str(x) for x in ptrs], "expected": [str(m.pointer()) for m in ms]})
+                        return
         paths = [jsonpath.compile(t) for t in ("$.items[?@.price <= $.budget]", "$.items[?@.price <= _.budget].price", "$..[?@.price > $.floor && @.price <= _.budget]", "$.items[?@.price <= $.budget] | $.items[?@.price > $.budget]")]
         for _ in range(spec["count"]):
             cp = r.choice(paths)
@@ -374,6 +390,9 @@ def replay(case, ctx):
 
     import jsonpath
 
+    if case.get("kind") == "key-twins":
+        run({"kind": "shared-compiled", "count": 0}, ctx)
+        return
     if case.get("kind") == "shared-compiled":
         cp = jsonpath.compile(case["path"])
         want = list(jsonpath.compile(case["path"]).finditer(case["doc_a"], filter_context=case["ctx_a"]))
